@@ -49,7 +49,7 @@ func init() {
 				if !th {
 					break // the IEEE overflow proofs take ~1 min per assertion: thorough tier only
 				}
-				p.Jobs = append(p.Jobs, Job{Harness: "opset13.H_C09_softmax", Case: map[string]interface{}{"op": op, "shape": s, "dtype": "float32", "default": true}})
+				p.Jobs = append(p.Jobs, Job{Harness: "opset13.H_C09_softmax", Case: map[string]interface{}{"op": op, "shape": s, "dtype": "float32", "default": true, "best_effort": true}})
 			}
 			// IEEE on the grid {-200,0,200}: long rows (a slip in the row maximum of a long row shows as an overflow)
 			for _, s := range gridRows {
@@ -73,7 +73,7 @@ func init() {
 		p.Bounds = []string{
 			"ArgMax: shapes of rank 1..3 (4 thorough) with extents <= 3, axis symbolic in [-rank-1, rank] or absent, keepdims 0/1/absent, element types float32/float64/int64/int32/uint8, every element symbolic (IEEE floats incl. +-Inf, ties); slices with NaN: only the index range is asserted",
 			"ReduceMax/ReduceMin: same shapes, 0..2 symbolic axes or no axes attribute, keepdims 0/1/absent, NaN-free elements",
-			"Softmax/LogSoftmax, IEEE float32, THOROUGH TIER ONLY (each proof takes about a minute of solver time): shapes (2) and (2,2), default axis, all finite inputs of any magnitude: results not NaN, Softmax in [0,1], LogSoftmax <= 0, under stated bracketing facts about exp/log",
+			"Softmax/LogSoftmax, IEEE float32 over ALL finite inputs, THOROUGH TIER ONLY and BEST EFFORT: shapes (2) and (2,2), default axis: results not NaN, Softmax in [0,1], LogSoftmax <= 0, under stated bracketing facts about exp/log. These floating-point queries sit at the edge of what z3/cvc5 finish (minutes to more than an hour each, depending on the machine's load); each case gets 6 minutes of escalated solver time, and a query that is not decided is listed under best_effort_undecided and printed as UNDECIDED - it is then not part of what the run covered (the grid cases below and the exact-arithmetic cases do not depend on it)",
 			"Softmax/LogSoftmax, IEEE on a saturating grid: every element in {-200, 0, 200} (float64 {-1000, 0, 1000}; each exponential of a difference is exactly 0, 1 or +Inf), rows of 8, 9, 17 along the default axis, shapes (2,3,2) axis 1, (3,2) axis -2, (2,5) axis 1: not NaN, Softmax in [0,1] and equal to 1/(number of maxima) at a maximum and 0 elsewhere, LogSoftmax <= 0; all 3^n grid points in one Boolean query per assertion (finite-domain lifting of the float terms)",
 			"Softmax/LogSoftmax, exact arithmetic: shapes up to (2,2,2): outputs equal exp(x-m)/sum resp. (x-m)-log(sum) along the requested axis only, each Softmax slice sums to 1 (exp, log uninterpreted with exp > 0)",
 		}
